@@ -9,6 +9,21 @@ using namespace iora::core;
 using ms = std::chrono::milliseconds;
 int main(int argc, char **argv) {
   auto in = replay_io::load(argv[1]);
+  if (in.count("MODE") && in["MODE"] == "drain_accepting") {
+    // D1-D3: drain() stops the tick thread and fires the due handlers itself; a handler that re-arms must be REFUSED, as must any schedule() afterwards.
+    static TimingWheel w(ms(10), 16, 2);
+    w.start();
+    static TimerId rearmId = 12345; static int rearmRan = 0;
+    w.schedule(ms(0), [] { rearmId = w.schedule(ms(20), [] { rearmRan++; }); });   // due immediately; fired by the tick thread or by drain()
+    auto stats = w.drain(ms(1000));
+    TimerId after = w.schedule(ms(20), [] {});
+    std::this_thread::sleep_for(ms(100));
+    printf("drain(): fired %zu; the handler's own schedule() returned id %llu (12345 = handler ran before drain); schedule() after drain() returned id %llu; pending %zu; re-armed handler ran %d times\n",
+           stats.fired, (unsigned long long)rearmId, (unsigned long long)after, w.pendingCount(), rearmRan); fflush(stdout);
+    if (after != InvalidTimerId || (rearmId != 12345 && rearmId != InvalidTimerId && rearmRan == 0 && stats.fired > 0)) {
+      printf("REPLAY-FAIL: D2/D3: a timer was ACCEPTED by a wheel whose tick thread drain() has stopped (id %llu / %llu) - it is never fired nor cancelled\n", (unsigned long long)rearmId, (unsigned long long)after); fflush(stdout); _exit(1); }
+    printf("REPLAY-OK: refused\n"); fflush(stdout); _exit(0);
+  }
   if (in.count("MODE") && in["MODE"] == "catchup") {
     // R4: a level-0 wrap inside a multi-tick catch-up. wheel(10 ms,4,2), timer of 165 ms on level 1; 35 ms before its deadline the tick thread
     // has been stalled for 10 ticks (simulated: _lastAdvanceTime = now - 100 ms) and advance() catches up in one call.
